@@ -259,6 +259,9 @@ class Signs:
             l, r = self.kind_tuple(node.left, f, env), self.kind_tuple(node.right, f, env)
             if isinstance(l, tuple) and isinstance(r, tuple):
                 return l + r
+            if isinstance(l, tuple) and len(l) == 1 and isinstance(node.left, ast.Tuple):
+                # (distance,) + <pair of points kept in one variable>: the distance slot is known, the rest is not
+                return l + (OTHER, OTHER)
         if isinstance(node, ast.Call):
             s = self._call_summary(node, f, env)
             if isinstance(s, tuple):
